@@ -78,6 +78,16 @@ CHECKS = {
         "note": "tolerance 1e-8 cycles with 30*F0*span <= 4e6 cycles; TMIDs in a leap-second-free range; astropy's parsing of the TMID string trusted",
         "technique": "property-based testing: grammar-based text generation + exact-rational oracle; repeatability check for hidden state",
     },
+    "C10": {
+        "text": "Generated signals of every class split at generated cut points along time (repeated/end cuts, empty pieces, any pattern of pieces without "
+                "start time) and along frequency (all alignments, odd pieces of even bands), re-joined flat and in three groupings (associativity) with the "
+                "axis given as 0/'time'/-ndim/1/'freq'/1-ndim: data bit-identical, start time, rate, labels, class restored. Each of ~20 kinds of "
+                "perturbation of one piece by at least one sample/channel (start time, order, overlap, gap, rate, chan_bw, centre, class, repetition; "
+                "along time, frequency and trailing axes) must raise. Exploration.",
+        "ref": "DESIGN.md section 4 C10",
+        "note": "labels compared within (8+2d) ulp; sample-rate perturbations >= 1e-3 relative (documented isclose tolerance of the code)",
+        "technique": "property-based testing: split/concatenate round trip, associativity, and refusal of generated perturbations",
+    },
     "C12": {
         "text": "Generated signals of every class (N 1..128, f4/f8/c8/c16, with/without start time, rates mHz..GHz in every unit) and snippet requests in "
                 "each documented form (sample count int/float, duration in s..min, k*dt, absolute Time), whole and fractional, n 0..N incl. requests "
